@@ -531,3 +531,26 @@ func replayMode(t *testing.T, id, sub string) bool {
 	t.Errorf("replayed case fails: %s", msg)
 	return true
 }
+
+// EnumerateSharded is Enumerate for grids large enough to be worth spreading
+// over all shards: each receives (shard, nshards) and must yield only its part.
+func EnumerateSharded[C any](t *testing.T, p Prop[C], name string, each func(shard, nshards int, yield func(C) bool)) {
+	register(p)
+	if replayMode(t, p.ID, p.Sub) {
+		return
+	}
+	t.Run(p.Sub+"/"+name, func(t *testing.T) {
+		n := 0
+		i, ns := Shard()
+		each(i, ns, func(c C) bool {
+			n++
+			if msg := safeRun(p.Run, c); msg != "" {
+				reportViolation(p.ID, p.Sub, c, msg)
+				t.Errorf("enumerated case fails: %s", msg)
+				return false
+			}
+			return true
+		})
+		Stat(p.ID).Enum(name, n)
+	})
+}
